@@ -58,6 +58,29 @@ func VH_C05_RotateContinuity() {
 				verifrt.Assert(sm.SeatData[s].IsIn && sm.SeatData[s].HasChips, "eligibility is not touched by the rotation")
 			}
 		}
+		// "on the same terms as a newcomer": a seat whose occupant cannot be dealt in at all
+		// (busted, or not seated-in yet) leaves the rotation with the waiting flag a newcomer
+		// taking that seat would get — strictly between the new button and the new big blind
+		// (the button of that test is the previous small-blind seat, except after a heads-up
+		// hand that grows into a ring, where it is the new dealer seat) — so that a later
+		// re-buy / join makes him eligible on exactly a newcomer's terms
+		preHU := p.D == p.SB && p.BB != p.D
+		postActive := 0
+		for s := 0; s < M; s++ {
+			if vhPostActive(sm, s) {
+				postActive++
+			}
+		}
+		button := p.SB
+		if preHU && postActive >= 3 {
+			button = sm.DealerSeatID
+		}
+		for s := 0; s < M; s++ {
+			if p.seats[s].occ && !p.eligible(s) {
+				want := vhStrictlyBetween(M, button, sm.BBSeatID, s)
+				verifrt.Assert(sm.SeatData[s].IsBetweenDealerBB == want, "a busted or not yet seated-in occupant leaves the rotation with a newcomer's waiting flag for his seat")
+			}
+		}
 	}
 	verifrt.Reach("end")
 }
